@@ -153,6 +153,21 @@ def check_props_file(relpath, extra_Q=()):
     return obls, assumptions, out
 
 
+def coqchk(props_files):
+    """independent re-check (coqchk -o) of the compiled property files and everything they depend on;
+    the obligation holds when the checker accepts them and reports no axiom, no type-in-type, no unsafe
+    fixpoint and no assumed positivity"""
+    mods = ['CV.' + f[:-2].replace('/', '.') for f in props_files]
+    with Lock('coqbuild'):
+        rc, out = sh(['timeout', '3000', 'coqchk', '-o', '-silent', '-Q', COQ, 'CV'] + mods, cwd=COQ, timeout=3100)
+    summary = out[out.find('CONTEXT SUMMARY'):] if 'CONTEXT SUMMARY' in out else out[-1500:]
+    clean = all(re.search(r'\* %s: <none>' % re.escape(k), summary) for k in
+                ('Axioms', 'Constants/Inductives relying on type-in-type',
+                 'Constants/Inductives relying on unsafe (co)fixpoints', 'Inductives whose positivity is assumed'))
+    return Obligation('coqchk -o %s (independent checker: no axioms, no unsafe flags)' % ' '.join(mods),
+                      rc == 0 and clean, summary[-1500:])
+
+
 def coq_check_text(name, text, extra_Q=(), timeout=600):
     """Compile a generated .v text; returns (ok, output)."""
     d = os.path.join(WORK, 'gen')
@@ -344,6 +359,8 @@ class Check:
                 ob, ass, _ = check_props_file(pf)
                 obligations += ob
                 assumptions_seen += ass
+        if ok and self.tier == 'thorough' and os.environ.get('VERIF_COQCHK', '1') != '0':
+            obligations.append(coqchk(self.props_files))
         if self.has_model and ok:
             ok2, out2 = build_model(self.pid)
             obligations.append(Obligation('extraction+ocamlopt', ok2, '' if ok2 else out2))
